@@ -187,6 +187,31 @@ class Ctx:
 
         def spell(p, how):
             return p if how else os.path.relpath(p, cwd)
+        if amb["stale"] and amb["entropy"] % 2 == 0:
+            # ... and in half of those cases the directory is one an earlier run on an earlier revision wrote into: the tool
+            # itself generates the *unedited* corpus there first, and every file it left is then overwritten with other
+            # bytes of the same length (same names, same sizes, different contents - what a size- or time-stamp-based
+            # "is it up to date?" shortcut would mistake for current output). Which runs do this is a function of the trace
+            # (the entropy draw), and the pre-run sees the base ambient, so the run stays a pure function of its trace.
+            pre_env = {"PATH": ENV.get("PATH", "/usr/bin:/bin"), "LD_PRELOAD": self.shim, "VSIM_ENTROPY": "1", "VSIM_CLOCK": "1700000000", "VSIM_PID": "4242", "VSIM_HOST": "vsim-host", "VSIM_HEAP": "0",
+                       "VSIM_REPORT": os.path.join(out_dir + ".prereport"), "HOME": "/nonexistent", "RUST_BACKTRACE": "0", "NO_COLOR": "1"}
+            subprocess.run(self.aslr + [self.tool, backend[1], out_dir, "-e", self.state_source(corpus, []), "-c", os.path.join(c["dir"], "config.toml"), "-s"] + backend[2],
+                           cwd=c["dir"], env=pre_env, stdout=subprocess.DEVNULL, stderr=subprocess.DEVNULL)
+            try:
+                os.remove(out_dir + ".prereport")
+            except OSError:
+                pass
+            n_same = 0
+            for root, _, names in os.walk(out_dir):
+                for nm in names:
+                    p = os.path.join(root, nm)
+                    size = os.path.getsize(p)
+                    with open(p, "wb") as f:
+                        f.write((b"// stale bytes of an earlier revision\n" * (size // 38 + 1))[:size])
+                    n_same += 1
+            with self.lock:
+                self.stale_same_size = getattr(self, "stale_same_size", 0) + 1
+                self.stale_same_size_files = getattr(self, "stale_same_size_files", 0) + n_same
         report = os.path.join(out_dir + ".report")
         env = {
             "PATH": ENV.get("PATH", "/usr/bin:/bin"),
@@ -554,7 +579,7 @@ def check(tier, seed):
         "comparisons_per_oracle": evaluated,
         "tool_processes_simulated": ctx.runs,
         "runs_per_hour": int(ctx.runs / max(wall, 1e-9) * 3600),
-        "fault_kinds_fired": {"ambient_entropy_draws": ctx.runs, "stale_output_dir": sum(1 for k in ctx.run_cache if json.loads(k[3])["stale"]),
+        "fault_kinds_fired": {"ambient_entropy_draws": ctx.runs, "stale_output_dir": sum(1 for k in ctx.run_cache if json.loads(k[3])["stale"]), "stale_output_dir_from_an_earlier_revision_same_names_and_sizes": getattr(ctx, "stale_same_size", 0), "stale_same_size_files_written": getattr(ctx, "stale_same_size_files", 0),
                               "relative_path_spelling": sum(1 for k in ctx.run_cache if not json.loads(k[3])["abs_entry"]), "cwd_elsewhere": sum(1 for k in ctx.run_cache if json.loads(k[3])["cwd"])},
         "not_controlled": ["OS thread id (raw gettid syscall; only visible in panic messages, normalised away)"],
         "seam_reach": {"calls_seen_by_shim": ctx.seam, "max_distinct_listing_orders_per_corpus_backend": orders, "aslr_disabled": bool(ctx.aslr),
